@@ -1,7 +1,7 @@
 (* Model/BoltCheck.v (codec) - executable comparison functions used by the correspondence shards of
    bolt / boltv2 (the harness prints the observations of the real code as terms of these types). *)
 From Coq Require Import List NArith Bool.
-From MV Require Import Lib.Bytes Lib.Dec Lib.Seg Gen.ProtoConsts Gen.CodecSrc Model.HeaderKV Model.Bolt.
+From MV Require Import Lib.Bytes Lib.Dec Lib.Seg Model.CodecParams Model.HeaderKV Model.Bolt.
 Import ListNotations.
 Open Scope N_scope.
 
